@@ -58,8 +58,12 @@ class C09(PropBase):
             data = G.corrupt(rng, G.join(rng, lines, eol_mode=rng.below(3)), 1 + rng.below(3))
             add("corrupt", data, G.sched_random(rng, len(data), style=rng.choice([0, 0, 4])))
         # 2b. every numeric field of every record kind at 0 / max / one digit too many / out of range (exhaustive)
-        for data in G.boundary_files():
-            add("boundary", data)
+        for data, tag in G.boundary_files_tagged():
+            add("boundary", data, tag=tag)
+        # 2c. a carriage return that is not part of the line ending, inside every record kind (measured hole: rejected INFO lines)
+        for data, k in G.cr_inside_files():
+            add("cr-inside", data)
+            add("cr-inside", data, [str(k), "1"])
         # 3. tiny / degenerate inputs
         for data in [b"", b"\n", b"\r\n", b"\r", b"x", b"MODULE", b"MODULE a b c d", b"MODULE a b c d\n", b"\n\n\n", b"\nMODULE a b c d\n",
                      b"MODULE a b c d\nMODULE a b c d\n", b"FUNC 1 1 0 f", b"\x00", b"\xff\n", b" \n", b"MODULE a b c d\n" + b"\n" * 3000]:
@@ -135,6 +139,8 @@ class C09(PropBase):
         a = G.analyse(case)
         if a["tag"] == "ok" and f["R"] != "OK":
             return "every line of this input is a valid record (over-long ones are to be dropped), yet the parse fails with " + f["R"]
+        if a["tag"] == "bad" and f["R"] == "OK":
+            return "a numeric field of this input is malformed or out of range for the Breakpad format, yet the parse succeeds"
         if a["tag"] == "orphan" and f["R"] != "OK":
             return ("the only corrupt line is an over-long FUNC / STACK CFI INIT header; it is dropped, but its sub-lines then "
                     "make the parse fail with " + f["R"])
